@@ -20,12 +20,6 @@ theorem collect_ok (f : Layer → Res (List Bytes)) (g : Layer → List Bytes) (
     have h2 := ih (fun x hx => h x (by simp [hx]))
     simp [Fs.collect, h1, h2]
 
-theorem at_dir_iff (l : Layer) (c : Comps) : (walkOf l).at c = some .dir ↔ l.get c = some .dir := by
-  rw [at_walkOf]
-  cases l.get c with
-  | none => simp
-  | some n => cases n <;> simp [kindOf]
-
 /-- One layer's `list` on a domain directory with a pattern of the family is the specification's
 per-layer entry list, rendered. -/
 theorem layer_list_eq (l : Layer) {d : Bytes} {q : Loc} (h : locOf d = some q)
